@@ -196,6 +196,32 @@ func execute(h history, k int, f *fault, res *result) (func(), func(*vsched.Exec
 			req.Tag = uint16(100 + i)
 			s.Do(req) // must be answered: a leaked lock deadlocks here
 		}
+		// Fids the history used and the model says are no longer bound (after
+		// an error: "Tclunk/Tremove still unbind", and a failed walk binds
+		// nothing) must really be unbound.
+		if trusted && !model.Poisoned {
+			used := map[uint32]bool{}
+			for _, req := range h.reqs {
+				for _, fld := range []string{"fid", "newfid", "afid", "dfid", "dirfd", "olddirfid", "newdirfid"} {
+					if v, ok := fieldU(req, fld); ok && v < 1000 {
+						used[uint32(v)] = true
+					}
+				}
+			}
+			var stale []int
+			for fid := range used {
+				if _, bound := model.Fids[fid]; !bound {
+					stale = append(stale, int(fid))
+				}
+			}
+			sort.Ints(stale)
+			for i, fid := range stale {
+				r := s.Do(tagOf(rawpeer.Tgetattr(0, uint32(fid)), uint16(150+i)))
+				if r.Type != refcodec.Rlerror || rawpeer.Errno(r) != 9 {
+					add("fid-still-bound-after-fault|"+faultedMethod, fmt.Sprintf("%s: fid %d is unbound in the reference model after the history (with the injected %s in %s), but Tgetattr through it is answered %v, want EBADF", h.name, fid, fname(f), faultedMethod, r))
+				}
+			}
+		}
 		// A second connection touching the same paths.
 		s2 := sess.Connect(fs, srv, "c2")
 		sessions = append(sessions, s2)
@@ -246,6 +272,18 @@ func execute(h history, k int, f *fault, res *result) (func(), func(*vsched.Exec
 	}
 	return body, check
 }
+
+// fieldU returns the named integer field of a message, if its type has one.
+func fieldU(m refcodec.Msg, name string) (v uint64, ok bool) {
+	defer func() {
+		if recover() != nil {
+			ok = false
+		}
+	}()
+	return m.U(name), true
+}
+
+func tagOf(m refcodec.Msg, t uint16) refcodec.Msg { m.Tag = t; return m }
 
 func fname(f *fault) string {
 	if f == nil {
